@@ -396,7 +396,10 @@ impl SubCheck for Conc {
         900
     }
     fn shrink_iters(&self) -> usize {
-        24
+        6
+    }
+    fn max_failures(&self) -> usize {
+        1
     }
     fn parallelism(&self) -> usize {
         // every case spawns a worker that itself uses up to 64 (mostly idle) threads
